@@ -201,7 +201,7 @@ def oracle(req, out):
 # ------------------------------------------------------------------ known findings
 
 K_CLASS = "linear-classdef-keyword-before-starred-base"
-K_FCONCAT = "linear-fstring-concat-formattedvalue-range"
+K_FCONCAT = "linear-fstring-concat-piece-range"
 K_CRLF = "linear-offset-inside-crlf"
 
 
@@ -269,15 +269,18 @@ def classify(req, impl_out, model_out, failure):
                 return K_CRLF
             return None
         if probs:
-            # every wrong position is a FormattedValue piece that received the location of an
-            # enclosing JoinedStr built by implicit concatenation
+            # every wrong position is a piece of an f-string built by implicit concatenation (a
+            # FormattedValue, or the JoinedStr/Constant of its format spec) that received the location
+            # of the enclosing JoinedStr instead of its own
             joined = {f"{ref.show(s)}-{ref.show(e)}": (s, e) for k, s, e, _, _ in d["nodes"] if k == "ExprJoinedStr"}
             for k, s, e, which, got, exp in probs:
-                if k != "ExprFormattedValue" or got not in joined:
+                if k not in ("ExprFormattedValue", "ExprJoinedStr", "ExprConstant") or got not in joined:
                     return None
                 js, je = joined[got]
                 if not (js <= s and e <= je and (js, je) != (s, e)):
                     return None
+                if src[s:s + 1] in b"'\"" or src[s:e].lstrip(b"rRbBuU")[:1] in (b"'", b'"'):
+                    return None     # the piece itself must be an f-string literal
             return K_FCONCAT
         return None
     if ws[0] == "trace":
